@@ -24,6 +24,8 @@ static void take (Image *im, long n)
 {	im->bytes = malloc (dev.len + 1) ; memcpy (im->bytes, dev.data, dev.len) ; im->len = dev.len ; im->n = n ;
 }
 
+static const unsigned char *raw_bytes ; static int raw_bw ;	/* when set, the parts are written with sf_write_raw from these encoded bytes (raw_bw bytes per frame) */
+
 /* writes the four parts; mode 0: no updates, 1: SFC_UPDATE_HEADER_NOW after each part, 2: SFC_SET_UPDATE_HEADER_AUTO */
 static int write_history (const Fmt *f, int ch, int mode, int meta, const long *parts, const short *data, Image *images, int with_mid)
 {	SF_INFO info ; SNDFILE *sf ; long n = 0 ; int rc ;
@@ -38,7 +40,8 @@ static int write_history (const Fmt *f, int ch, int mode, int meta, const long *
 	for (int p = 0 ; p < 4 ; p++)
 	{	sf_count_t w ;
 		if (mode == 2 && with_mid) { dev.on_write = on_write ; mid_on = 1 ; }
-		w = vl_write (sf, T_SHORT, 1, data + n * ch, parts [p]) ;
+		if (raw_bytes) { INLIB (w = sf_write_raw (sf, raw_bytes + n * raw_bw, parts [p] * raw_bw)) ; w = w >= 0 ? w / raw_bw : w ; }
+		else w = vl_write (sf, T_SHORT, 1, data + n * ch, parts [p]) ;
 		mid_on = 0 ;
 		if (w != parts [p]) { INLIB (sf_close (sf)) ; return -2 ; }
 		n += parts [p] ;
@@ -74,7 +77,7 @@ static long decode_all (const unsigned char *bytes, sf_count_t len, const Fmt *f
 
 static void c11_case (const Fmt *f, int ch, int mode, int meta, int seq)
 {	int rate = fmt_default_rate (f), B = fmt_block (f, ch, rate), rc ; long parts [4], total = 0 ; short *data, *fin = NULL, *plain = NULL ; Image images [4] ;
-	char rs [96] ; SF_INFO fi, pi ; const char *err = "" ; long Ffin, Fplain ; uint64_t oh = VL_H0 ;
+	char rs [96] ; SF_INFO fi, pi ; const char *err = "" ; long Ffin, Fplain ; uint64_t oh = VL_H0 ; unsigned char *raw_buf = NULL ;
 	int with_mid = vl_opts.thorough ;
 
 	snprintf (rs, sizeof (rs), "%s|%s|%s", rt_fam (f), rt_chclass (ch), mode == 1 ? "update-now" : mode == 2 ? "auto" : "update-now-after-seek") ;
@@ -85,8 +88,20 @@ static void c11_case (const Fmt *f, int ch, int mode, int meta, int seq)
 	data = malloc (total * ch * 2) ;
 	for (long i = 0 ; i < total * ch ; i++) { long fr = i / ch ; data [i] = (short) ((((fr * 37 + (i % ch) * 11) % 255) - 127) * 192 + (fr & 63)) ; }
 	memset (images, 0, sizeof (images)) ; nmid = 0 ;
+	raw_bytes = NULL ;
+	if (seq == 2)
+	{	/* the same audio through sf_write_raw: the encoded bytes are taken from the plain file the typed writes give */
+		SF_INFO ri ; SNDFILE *r ; PeekState pk ;
+		if (write_history (f, ch, 0, meta, parts, data, NULL, 0) != 0) { vl_note ("plain write failed") ; free (data) ; vl_end (0, 5) ; return ; }
+		md_rewind (&dev) ; rt_info_read (&ri, f, ch, rate) ; r = md_open (&dev, SFM_READ, &ri) ;
+		if (! r) { vl_note ("plain file does not open") ; free (data) ; vl_end (0, 6) ; return ; }
+		pk_get (r, &pk, 0) ; INLIB (sf_close (r)) ;
+		if (pk.blockwidth <= 0 || pk.dataoffset + total * pk.blockwidth > dev.len) { vl_note ("no fixed frame width") ; free (data) ; vl_end (0, 7) ; return ; }
+		raw_buf = malloc (total * pk.blockwidth + 1) ; memcpy (raw_buf, dev.data + pk.dataoffset, total * pk.blockwidth) ; raw_bytes = raw_buf ; raw_bw = pk.blockwidth ;
+		}
 
 	rc = write_history (f, ch, mode, meta, parts, data, images, with_mid) ;
+	raw_bytes = NULL ;
 	if (rc == -1) { vl_note ("write-open refused") ; free (data) ; vl_end (0, 1) ; return ; }
 	if (rc == -3) { vl_note ("write-mode seek not supported by this codec") ; free (data) ; for (int p = 0 ; p < 4 ; p++) free (images [p].bytes) ; vl_end (0, 3) ; return ; }
 	if (rc == -4) { vl_violation (rt_sig ("%s|seek-end-after-update", rs), "SEEK_END after the header update did not return the frames written so far") ; goto out ; }
@@ -144,7 +159,7 @@ out :
 	for (int p = 0 ; p < 4 ; p++) free (images [p].bytes) ;
 	for (int k = 0 ; k < nmid ; k++) free (mid [k].bytes) ;
 	nmid = 0 ;
-	free (data) ; free (fin) ; free (plain) ;
+	free (data) ; free (fin) ; free (plain) ; free (raw_buf) ;
 	vl_count_states (4) ;
 	vl_end (1, oh) ;
 }
@@ -167,6 +182,8 @@ void harness_run (void)
 					{	vl_root_count (f->name) ; c11_case (f, ch, mode, meta, 0) ; }
 					if (mode <= 2 && fmt_block (f, ch, fmt_default_rate (f)) > 1 && vl_case ("C11 fmt=%s ch=%d mode=%s meta=%d seq=block-aligned", f->name, ch, mode == 1 ? "update-now" : "auto", meta))
 					{	vl_root_count (f->name) ; c11_case (f, ch, mode, meta, 1) ; }
+					if (mode <= 2 && f->gran && sub != SF_FORMAT_DPCM_8 && sub != SF_FORMAT_DPCM_16 && vl_case ("C11 fmt=%s ch=%d mode=%s meta=%d seq=raw-writes", f->name, ch, mode == 1 ? "update-now" : "auto", meta))
+					{	vl_root_count (f->name) ; c11_case (f, ch, mode, meta, 2) ; }
 					}
 			}
 		}
